@@ -1,30 +1,41 @@
 pub mod common;
 pub mod c01;
 pub mod c02;
+pub mod c10;
+pub mod c11;
 pub mod c13;
+pub mod c16;
+pub mod c18;
+pub mod c19;
 
 use crate::explore::Ctx;
 use serde_json::Value;
 
-pub const ALL: [&str; 3] = ["C01", "C02", "C13"];
-
-pub fn run(ctx: &Ctx) -> i32 {
-    match ctx.prop {
-        "C01" => c01::run(ctx),
-        "C02" => c02::run(ctx),
-        "C13" => c13::run(ctx),
-        other => {
-            eprintln!("ENGINE-ERROR unknown property {}", other);
-            2
+macro_rules! props {
+    ($($id:literal => $m:ident),* $(,)?) => {
+        pub const ALL: &[&str] = &[$($id),*];
+        pub fn run(ctx: &Ctx) -> i32 {
+            match ctx.prop {
+                $($id => $m::run(ctx),)*
+                other => { eprintln!("ENGINE-ERROR unknown property {}", other); 2 }
+            }
         }
-    }
+        pub fn replay(prop: &str, case: &Value) -> Result<(), String> {
+            match prop {
+                $($id => $m::replay(case),)*
+                other => Err(format!("unknown property {}", other)),
+            }
+        }
+    };
 }
 
-pub fn replay(prop: &str, case: &Value) -> Result<(), String> {
-    match prop {
-        "C01" => c01::replay(case),
-        "C02" => c02::replay(case),
-        "C13" => c13::replay(case),
-        other => Err(format!("unknown property {}", other)),
-    }
+props! {
+    "C01" => c01,
+    "C02" => c02,
+    "C10" => c10,
+    "C11" => c11,
+    "C13" => c13,
+    "C16" => c16,
+    "C18" => c18,
+    "C19" => c19,
 }
